@@ -392,7 +392,9 @@ func (check typecheck) binaryExpr(n *node) error {
 
 	switch n.action {
 	case aAdd:
-		if n.typ == nil {
+		if n.typ == nil || isUntypedConst(c0) && isUntypedConst(c1) {
+			// An operation on untyped constants is an untyped constant, whatever the type expected by
+			// the context or left on the node by a previous walk: it is checked when the constant is used.
 			break
 		}
 		// Catch mixing string and number for "+" operator use.
